@@ -188,9 +188,40 @@ class Run(object):
                               'after %r: create() is %s, reference %s (S attempted %r confirmed %r failed %r, reply %r)'
                               % (self.log, self.rec.summary(), self.want, sorted(self.attempted), sorted(self.ok), sorted(self.failed), self.reply)))
 
+    def second_service(self, w):
+        """after the first creation has ended, a second ephemeral service is created on the same connection and completes;
+        afterwards nothing may be left subscribed and the first service's listener must not have come back"""
+        impl = self.impl
+        sim = impl.sim
+        if impl.wire.lost_seq is not None or not self.rec.fires:
+            return
+        sim.hold_prefixes = []
+        n_before = len(self.progress)
+        d2 = EphemeralOnionService.create(w.reactor, impl.cfg, ['81 127.0.0.1:8081'], version=3)
+        rec2 = DRec(d2)
+        sim.pump()
+        sid2 = list(sim.onions)[-1] if sim.onions else None
+        if sid2 is None or len(rec2.fires):
+            self.viol.append(('second-service-outcome', self.kind, 'second ADD_ONION not answered normally: %r %r' % (sid2, rec2.summary())))
+            return
+        hd = hsdir_name(9)
+        sim.event('HS_DESC UPLOAD %s UNKNOWN %s descB' % (sid2, hd))
+        # the first service re-uploads meanwhile: its (removed) listener must stay silent
+        if sid2 != self.sid:
+            sim.event('HS_DESC UPLOAD %s UNKNOWN %s descA2' % (self.sid, hsdir_name(8)))
+        sim.event('HS_DESC UPLOADED %s UNKNOWN %s' % (sid2, hd))
+        sim.pump()
+        if len(rec2.fires) != 1 or rec2.kind != 'ok':
+            self.viol.append(('second-service-outcome', self.kind, 'a second service created after the first one ended: %r' % (rec2.summary(),)))
+        if len(self.progress) != n_before:
+            self.viol.append(('finished-creation-still-listening', self.kind,
+                              'the first service\'s progress callback ran again (%d more calls) while a later service was being created'
+                              % (len(self.progress) - n_before)))
+
     def final_checks(self, w):
         proto = self.impl.proto
         sim = self.impl.sim
+        self.second_service(w)
         if self.rec.fires and self.impl.wire.lost_seq is None:
             outcome = self.rec.kind
             if 'HS_DESC' in proto.events:
@@ -238,8 +269,57 @@ def enabled(history, ndirs):
     return out
 
 
+REFUSED = [
+    dict(version=3, private_key='RSA1024:SOMEBLOB=='),
+    dict(version=3, private_key='ED25519-V3:AB\nCD'),
+    dict(version=3, private_key='ED25519-V3:AB\rCD'),
+    dict(version=2, private_key='RSA1024:AB\nCD'),
+    dict(version=2, private_key='RSA1024:AB\r\nSETEVENTS'),
+    dict(version=2, private_key='RSA1024:AB\nCD', auth='basic'),
+    dict(version=3, private_key='RSA1024:SOMEBLOB==', detach=True),
+    dict(version=3, private_key='RSA1024:SOMEBLOB==', single_hop=True),
+]
+
+
+def run_refused(i, await_all):
+    """a creation the library itself refuses (key material with line breaks, key type that contradicts the version): it fails
+    - and, having failed, must not stay subscribed; a service created afterwards works"""
+    from txtorcon.onion import EphemeralAuthenticatedOnionService, AuthBasic
+    kw = dict(REFUSED[i])
+    auth = kw.pop('auth', None)
+    viol = []
+    with World() as w:
+        impl = CfgImpl(w, [('SocksPort', ['9050'])])
+        sim = impl.sim
+        base = len(sim.commands)
+        try:
+            if auth:
+                d = EphemeralAuthenticatedOnionService.create(w.reactor, impl.cfg, ['80 127.0.0.1:8080'], auth=AuthBasic(['alice']),
+                                                              await_all_uploads=await_all, **kw)
+            else:
+                d = EphemeralOnionService.create(w.reactor, impl.cfg, ['80 127.0.0.1:8080'], await_all_uploads=await_all, **kw)
+            rec = DRec(d)
+            sim.pump()
+            outcome = rec.summary()[:2]
+        except ValueError as e:
+            rec = None
+            outcome = ('raised', 'ValueError')
+        cmds = sim.commands[base:]
+        if rec is not None and (len(rec.fires) != 1 or rec.kind != 'err'):
+            viol.append(('refused-creation-outcome', 'case%d' % i, 'create(%r) -> %r' % (REFUSED[i], rec.summary())))
+        if any(c.startswith('ADD_ONION') for c in cmds):
+            viol.append(('refused-creation-sent', 'case%d' % i, 'commands %r' % (cmds,)))
+        if 'HS_DESC' in impl.proto.events or 'HS_DESC' in sim.events:
+            viol.append(('subscription-left', 'after-refusal', 'create(%r) failed with %r but HS_DESC is still subscribed (commands %r)'
+                         % (REFUSED[i], outcome, cmds)))
+        errs = [e for e in w.errors() if 'dataReceived raised' not in e[0]]
+        if errs and not viol:
+            viol.append(('logged-error', errs[0][1], '%r' % (errs[:1],)))
+    return dict(viol=viol, outcome=outcome)
+
+
 def tasks(tier, seed):
-    out = []
+    out = [('refused', None, 0, None)]
     for kind in ('ephemeral', 'filesystem'):
         for await_all in (False, True):
             nd = 2 if tier == 'quick' else 3
@@ -255,6 +335,15 @@ def tasks(tier, seed):
 
 def run_task(param, acc):
     kind, await_all, nd, first = param
+    if kind == 'refused':
+        for i in range(len(REFUSED)):
+            for aa in (False, True):
+                r = run_refused(i, aa)
+                acc.execution(key=('refused', i, aa), outcome='refused/' + '/'.join(sorted(set(v[0] for v in r['viol']))) if r['viol'] else 'refused/%s' % (r['outcome'][1],),
+                              nontrivial=True, steps=2)
+                for clause, feat, detail in r['viol']:
+                    acc.violation('%s/%s' % (clause, feat), detail, dict(kind='refused', case=i, await_all=aa), cost=i)
+        return
     solo = first == 'solo'
     seen = set()
     if solo:
@@ -295,16 +384,28 @@ def run_task(param, acc):
 
 
 def classify(kind, await_all, nd, hist, r):
-    """differential oracle: a completion that disappears when the foreign service's events are deleted from the history
-    was caused by them"""
+    """differential oracle: a wrong outcome that disappears when the foreign service's events are deleted from the history
+    was caused by them.  The one known mechanism is named precisely: an UPLOADED of the foreign service to a directory our
+    service had already started uploading to (matched by directory only)."""
     out = []
     for clause, feat, detail in r.viol:
-        if clause in ('completed-early', 'completed-without-own-upload') or clause.startswith('wrong-outcome') or clause == 'failed-early':
+        if clause in ('completed-early', 'completed-without-own-upload', 'failed-early', 'completed-before-reply') or clause.startswith('wrong-outcome'):
             own = tuple(e for e in hist if len(e) == 1 or e[1] == 'S')
             if own != hist:
                 r2 = Run(kind, await_all, own, nd)
                 if not r2.viol:
-                    out.append(('foreign-service-events-change-outcome', kind, detail))
+                    s_started = set()
+                    shared_ok = False
+                    for e in hist:
+                        if len(e) == 3 and e[1] == 'S' and e[0] == 'U':
+                            s_started.add(e[2])
+                        if len(e) == 3 and e[1] == 'F' and e[0] == 'OK' and e[2] in s_started:
+                            shared_ok = True
+                    if shared_ok:
+                        out.append(('foreign-upload-to-shared-directory-counted', kind, detail))
+                    else:
+                        last = hist[-1]
+                        out.append(('foreign-service-events-change-outcome', '%s/%s/on-%s' % (kind, clause, '-'.join(str(x) for x in last[:2])), detail))
                     continue
         out.append((clause, feat, detail))
     return out
@@ -324,6 +425,9 @@ def handle(acc, kind, await_all, nd, hist, r):
 
 
 def replay(p):
+    if p['kind'] == 'refused':
+        r = run_refused(p['case'], p['await_all'])
+        return dict(violations=[dict(signature='%s/%s' % (c, f), what=d) for c, f, d in r['viol']], log=[repr(REFUSED[p['case']])])
     hist = tuple(tuple(e) for e in p['history'])
     r = Run(p['kind'], p['await_all'], hist, p['nd'])
     if r.viol:
@@ -338,8 +442,10 @@ def meta(tier):
         rule='events: UPLOAD / UPLOADED / FAILED for our service S and a foreign service F over %d shared directories (each upload '
              'starts once and resolves once), the creating command answered 250 at any point, rejected, or the connection lost; '
              'ephemeral (ADD_ONION) and filesystem (SETCONF + hostname file) services; await-all on/off; plus S alone over 4 '
-             'directories; every reachable environment x reference x implementation state is expanded. non-trivial = at least '
-             'two events' % nd,
+             'directories; every reachable environment x reference x implementation state is expanded; after every history that '
+             'ended the creation a second service is created and completed on the same connection (the first one must stay silent, '
+             'nothing may stay subscribed); plus %d creations the library itself refuses (line breaks in the key, key type '
+             'contradicting the version). non-trivial = at least two events' % (nd, len(REFUSED)),
         bounds=dict(services=2, shared_directories=nd, solo_directories=4, modes=['first-upload', 'await-all'], kinds=['ephemeral', 'filesystem']),
         assumptions=['Tor cannot report uploads of a service before it answered the command that creates it; histories where it does '
                      'are checked for the safety clauses only (never completes before the reply, never without an own UPLOADED)',
